@@ -242,3 +242,97 @@ func chainInsertGuarded(c *core.Ctx, r *core.Rule) {
 		r.Missing("serialize/link-in", "no chain insertion found (addIPv6JumboOption was confirmed by reading)")
 	}
 }
+
+// listOrderUnderPrepend (R6.5): elements of a list field that the decoder
+// appends in wire order are written back in the same order.  A loop that
+// walks the list upwards and PrependBytes for each element writes them in
+// reverse.
+func listOrderUnderPrepend(c *core.Ctx, r *core.Rule) {
+	p := c.P
+	roots := p.Roots()
+	n := 0
+	for _, fn := range core.SortedFns(roots.SerReach) {
+		if fn.Pkg == nil || len(fn.Blocks) == 0 || strings.HasSuffix(p.Pos(fn.Pos()), "_test.go") {
+			continue
+		}
+		k := 0
+		for _, b := range fn.Blocks {
+			for _, ins := range b.Instrs {
+				ph, ok := ins.(*ssa.Phi)
+				if !ok {
+					break
+				}
+				bt, ok := ph.Type().Underlying().(*types.Basic)
+				if !ok || bt.Info()&types.IsInteger == 0 {
+					continue
+				}
+				// index variable: one edge a constant, another phi+1 or phi-1
+				dir := 0
+				var step ssa.Value
+				for _, e := range ph.Edges {
+					if bo, ok := e.(*ssa.BinOp); ok && bo.X == ssa.Value(ph) {
+						step = bo
+						if kk, ok := core.ConstInt(bo.Y); ok && kk == 1 {
+							if bo.Op == token.ADD {
+								dir = +1
+							} else if bo.Op == token.SUB {
+								dir = -1
+							}
+						}
+					}
+				}
+				if dir == 0 {
+					continue
+				}
+				// the loop body: blocks on a cycle through b that index a slice loaded from a field by ph
+				indexesList := false
+				var prepend ssa.Instruction
+				seen := map[*ssa.BasicBlock]bool{}
+				var inLoop []*ssa.BasicBlock
+				var dfs func(x *ssa.BasicBlock)
+				dfs = func(x *ssa.BasicBlock) {
+					if seen[x] {
+						return
+					}
+					seen[x] = true
+					if x != b && !b.Dominates(x) {
+						return
+					}
+					// x is in the loop if it can reach b
+					if core.ForwardSearch(fn, x.Instrs[0], func(i ssa.Instruction) bool { return i == ssa.Instruction(ph) }, nil) != nil || x == b {
+						inLoop = append(inLoop, x)
+						for _, s := range x.Succs {
+							dfs(s)
+						}
+					}
+				}
+				dfs(b)
+				for _, x := range inLoop {
+					for _, i2 := range x.Instrs {
+						if ia, ok := i2.(*ssa.IndexAddr); ok && (ia.Index == ssa.Value(ph) || (step != nil && ia.Index == step)) {
+							if a, ok := core.IsLoad(ia.X); ok {
+								if pth, _ := core.FieldPath(a); pth != "" {
+									indexesList = true
+								}
+							}
+							if _, isParamOrConv := core.StripConv(ia.X).(*ssa.UnOp); isParamOrConv {
+								indexesList = true
+							}
+						}
+						if cc := core.CallCommonOf(i2); cc != nil && cc.IsInvoke() && cc.Method.Name() == "PrependBytes" && core.NamedIs(cc.Value.Type(), "SerializeBuffer") {
+							prepend = i2
+						}
+					}
+				}
+				if !indexesList || prepend == nil {
+					continue
+				}
+				n++
+				k++
+				key := fmt.Sprintf("%s/list-prepend#%d", core.FnKey(fn), k)
+				r.Check(dir < 0, key, p.InstrPos(prepend), "the list is walked from its last element down, so prepending keeps the wire order", "the list is walked from its first element up and each element is prepended: the elements end up in reverse order on the wire, so decoding the written bytes gives the list reversed")
+			}
+		}
+	}
+	c.Counts["list_prepend_loops"] = n
+}
